@@ -24,7 +24,7 @@ def run_config(chk, tier, cfgname):
     # credit consistency is part of every mutator-side spec: evaluate the tables that credit work
     for t in ("trace", "trace_weak", "resurrect", "backward_barrier", "backward_barrier_weak", "forward_barrier",
               "forward_barrier_weak", "mark_one", "sweep_one", "link", "drop_all"):
-        typestate.apply(chk, "credits-match-work:" + t, t)
+        typestate.apply(chk, "credits-match-work:" + t, t, aspects=("credits", "credits-over", "credits-under", "count", "panic"))
     typestate.report_automaton(chk, ["S4", "PANIC"])
     from gcv import rules_metrics, rules_debt
     rules_metrics.run(chk, prog)
